@@ -6,8 +6,8 @@ import re
 from vf.coqterm import Z, N, B, S, L, T, C, Rec, Nat
 
 ID = "C07"
-COQ_TARGETS = ["props/C07.vo", "model/BodyCheck.vo"]
-CHECK_TARGETS = ["model/BodyCheck.vo"]  # still evaluated when the proofs no longer build
+COQ_TARGETS = ["props/C07.vo", "model/BodyCheck.vo", "lib/Pack.vo"]
+CHECK_TARGETS = ["model/BodyCheck.vo", "lib/Pack.vo"]  # still evaluated when the proofs no longer build
 THEOREMS = [
     ("EG.props.C07", "C07_at_limit_passes"),
     ("EG.props.C07", "C07_over_limit_rejected"),
@@ -31,7 +31,7 @@ HARNESSES = [
 GROUPS = {"body": "check_body", "big": "check_big"}
 EXPLAIN = {"body": "explain_body", "big": "explain_big"}
 CASES = {"quick": 500, "thorough": 6000}
-RULE = ("cases: limits at server/path/proxy/pool level drawn from {0, -1, 8..64} x request and response bodies of "
+RULE = ("cases: limits at server/path/proxy/pool level drawn from {0, -1, 8..64, and the internal buffer sizes 512, 4096, 8 pages, 16 pages} x request and response bodies of "
         "0, 1, limit/2, limit-1, limit, limit+1, limit+2, 2x, 10x, 100x the effective limit x framing (Content-Length exact / "
         "announcing more / announcing less, chunked with and without last-chunk, close-delimited responses, no body); thorough adds "
         "the 4 MiB default at 4MiB-1, 4MiB, 4MiB+1 in both directions and both framings; non-trivial = the request carries a body or the "
@@ -41,6 +41,7 @@ RULE = ("cases: limits at server/path/proxy/pool level drawn from {0, -1, 8..64}
 TRUSTED_BASE = [
     "model coq/model/Body.v is hand-written; tied to httpprot.FetchPayload / mux.serveHTTP / ServerPool.buildResponse by the per-run correspondence over real loopback sockets (sampled)",
     "src_of_wire (what net/http's server and client body readers deliver for a given framing) and the net/http server's write-out are runtime behaviour: observed by the raw client/backend, modelled, not verified",
+    "case files carry long byte strings packed 7 bytes per primitive 63-bit integer (coq/lib/Pack.v), unpacked by vm_compute; no registered theorem depends on it",
     "gen/GenBody.v: DefaultMaxPayloadSize is re-extracted from pkg/protocols/httpprot/http.go on every run by plugins/C07.py (product of integer literals)",
 ]
 ASSUMPTIONS = [
@@ -89,11 +90,34 @@ def pregen(repo, coqdir):
 
 
 def coq_header(kf_open):
-    return "From EG.lib Require Import Base.\nFrom EG.model Require Import Body BodyCheck.\nOpen Scope Z_scope.\n"
+    return ("From Coq Require Import Uint63.\nFrom EG.lib Require Import Base Pack.\n"
+            "From EG.model Require Import Body BodyCheck.\nOpen Scope Z_scope.\n")
 
 
 def _b(x):
     return base64.b64decode(x) if x else b""
+
+
+class _Pool:
+    """Per-case pool of byte strings: every distinct long string is bound once by a `let`
+    (packed 7 bytes per primitive int, see coq/lib/Pack.v) and referred to by name."""
+
+    def __init__(self):
+        self.names = {}
+        self.defs = []
+
+    def s(self, bs):
+        if len(bs) <= 24:
+            return S(bs)
+        if bs not in self.names:
+            name = "b%d_" % len(self.names)
+            self.names[bs] = name
+            words = [str(int.from_bytes(bs[k:k + 7], "big")) for k in range(0, len(bs), 7)]
+            self.defs.append("let %s := unpack [%s]%%uint63 %d%%nat in" % (name, ";".join(words), len(bs) % 7 or 7))
+        return self.names[bs]
+
+    def wrap(self, term):
+        return "(" + " ".join(self.defs) + " " + term + ")" if self.defs else term
 
 
 def _enc(kind, decl, term):
@@ -111,12 +135,14 @@ def encode(c):
     cfg = Rec(c_srv=Z(i["srv"]), c_path=Z(i["path"]), c_pool=Z(i["pool"]), c_proxy=Z(i["proxy"]))
     bad = bool(o.get("panic")) or not o.get("got")
     if c["grp"] == "body":
-        return Rec(b_cfg=cfg,
+        pool = _Pool()
+        S = pool.s
+        return pool.wrap(Rec(b_cfg=cfg,
                    b_req_enc=_enc(i["reqEnc"], i["reqDecl"], i["reqTerm"]), b_req=S(_b(i["reqBody"])),
                    b_status=Z(i["respStatus"]),
                    b_resp_enc=_enc(i["respEnc"], i["respDecl"], i["respTerm"]), b_resp=S(_b(i["respBody"])),
                    b_bad=B(bad), b_ostatus=Z(o["status"]), b_obody=S(_b(o.get("body"))), b_oframe=B(o["frameOK"]),
-                   b_oheads=Z(o["heads"]), b_ocomplete=Z(o["complete"]), b_obbody=S(_b(o.get("bbody"))))
+                   b_oheads=Z(o["heads"]), b_ocomplete=Z(o["complete"]), b_obbody=S(_b(o.get("bbody")))))
     if c["grp"] == "big":
         rl = i["reqBig"] or len(_b(i["reqBody"]))
         pl = i["respBig"] or len(_b(i["respBody"]))
